@@ -259,6 +259,14 @@ func (eng *Engine) unbox(vc *VC, t types.Type, ref string) []string {
 	out := make([]string, len(lay))
 	for i, s := range lay {
 		un := fmt.Sprintf("unbox!%d!%d", tag, i)
+		if _, seen := vc.declared[un]; !seen && i == 0 {
+			if pt, ok := types.Unalias(t).Underlying().(*types.Pointer); ok && isBigInt(pt.Elem()) {
+				// a boxed non-nil *big.Int points to a big.Int object
+				vc.declFun(un, []Sort{SInt}, s)
+				vc.hasBigDecl()
+				vc.decls = append(vc.decls, fmt.Sprintf("(assert (forall ((b Int)) (! (or (= (%s b) 0) (hasBig (%s b))) :pattern ((%s b)))))", un, un, un))
+			}
+		}
 		vc.declFun(un, []Sort{SInt}, s)
 		out[i] = app(un, ref)
 	}
